@@ -1,2 +1,45 @@
-/- Oracle for C16 (stub: replaced when the property's model is built). -/
-def main : IO Unit := pure ()
+/-
+  Oracle for C16: reads the machines dumped by the harness (canonical text of harness/basmdump,
+  one machine between an `M` line and its `E` line) and evaluates the independent validator
+  `BMV.WfBM` on each:
+      WF <0|1> reasons=<r1,r2,..|-> unmodelled=<op,..|-> words=<#ROM words> cps=<#processors>
+  `CASE`, `F`, `R` lines are echoed.  When a machine uses opcodes outside the shared layout table
+  its verdict is printed but the reason list says so (`opcode-unmodelled-or-wrong-mode`) and the
+  opcodes are listed: the driver reports such instances as *unmodelled*, not as ill-formed.
+-/
+import BMV.WfBM
+import BMV.BasmText
+import BMV.Lines
+open BMV BMV.Lines BMV.BasmText
+
+structure St where
+  bm : Option BM := none
+
+def unmodelled (bm : BM) : List String :=
+  (bm.cps.flatMap fun cp => cp.arch.ops.filter fun op => (layout op).isNone).eraseDups
+
+def verdict (bm0 : BM) : String :=
+  let bm := finishBM bm0
+  let ok := WfBM bm
+  let rs := WfBM.explain bm
+  let um := unmodelled bm
+  let words := (bm.cps.map fun cp => cp.prog.length).sum
+  s!"WF {if ok then 1 else 0} reasons={if rs.isEmpty then "-" else ",".intercalate rs} unmodelled={if um.isEmpty then "-" else ",".intercalate um} words={words} cps={bm.cps.length}"
+
+def step (st : St) (line : String) : St × List String :=
+  match fields line with
+  | "CASE" :: _ => ({}, [line])
+  | "F" :: _ => (st, [line])
+  | "R" :: _ => (st, [line])
+  | "M" :: _ => ({ bm := some (bmLine default line) }, [])
+  | "E" :: _ =>
+    match st.bm with
+    | some bm => ({}, [verdict bm])
+    | none => (st, ["WF ? no-machine"])
+  | _ =>
+    match st.bm with
+    | some bm => ({ bm := some (bmLine bm line) }, [])
+    | none => (st, [])
+
+def main : IO Unit := do
+  let _ ← foldStdin ({} : St) step
